@@ -26,6 +26,7 @@ import (
 )
 
 type propCfg struct {
+	fuzz          []string // native fuzz targets run in the thorough tier
 	race          bool
 	shards        int           // 0 = default
 	quickWatch    time.Duration // watchdog per shard
@@ -35,7 +36,8 @@ type propCfg struct {
 
 var cfgs = map[string]propCfg{
 	"C14": {race: true, shards: 4},
-	"C05": {memLimitMiB: 3072},
+	"C05": {memLimitMiB: 3072, fuzz: []string{"FuzzExec"}},
+	"C06": {fuzz: []string{"FuzzRoundTrip"}},
 }
 
 func die(code int, format string, a ...any) {
@@ -215,6 +217,9 @@ func run(root, id, tier string) int {
 		mem = 4096
 	}
 
+	if os.Getenv("VERIF_ONLY_FUZZ") != "" { // sensitivity runs of the native fuzz phase alone
+		n = 0
+	}
 	outs := make([]shardOut, n)
 	var wg sync.WaitGroup
 	for i := 0; i < n; i++ {
@@ -372,6 +377,20 @@ func run(root, id, tier string) int {
 		}
 	}
 
+	// native coverage-guided fuzzing (thorough tier only): a wall-clock budget whose expiry means "nothing found"
+	fuzzExecs := map[string]string{}
+	if tier == "thorough" && len(cfg.fuzz) > 0 && len(infra) == 0 {
+		ft := "150s"
+		if v := os.Getenv("VERIF_FUZZTIME"); v != "" {
+			ft = v
+		}
+		for _, target := range cfg.fuzz {
+			fs, summary := nativeFuzz(root, id, target, ft, scratch)
+			failures = append(failures, fs...)
+			fuzzExecs[target] = summary
+		}
+	}
+
 	// verdict inputs
 	sort.Slice(failures, func(i, j int) bool {
 		if len(failures[i].Case) != len(failures[j].Case) {
@@ -517,4 +536,75 @@ func oneLine(s string, n int) string {
 		s = s[:n] + "…"
 	}
 	return s
+}
+
+// nativeFuzz runs one `go test -fuzz` campaign in a scratch copy of the property's package directory
+// (so crashers and the corpus are not written into /verif) and converts what it finds into failures.
+func nativeFuzz(root, id, target, fuzztime, scratch string) ([]h.Failure, string) {
+	pkg := "./props/" + strings.ToLower(id)
+	failDir := filepath.Join(scratch, "fuzzfail-"+target)
+	_ = os.MkdirAll(failDir, 0o755)
+	// (the generated corpus lives in Go's own fuzz cache, $GOCACHE/fuzz)
+	args := []string{"test", "-tags", "verif", "-vet=off", "-run", "^$", "-fuzz", "^" + target + "$", "-fuzztime", fuzztime, pkg}
+	if repo := os.Getenv("VERIF_REPO"); repo != "" && repo != "/repo" {
+		args = append(args[:3], append([]string{"-modfile=" + filepath.Join(scratch, "go.mod")}, args[3:]...)...)
+	}
+	cmd := exec.Command("go", args...)
+	cmd.Dir = root
+	cmd.Env = append(goEnv(), "VERIF_FUZZFAIL="+failDir, "VERIF_ROOT="+root)
+	out, err := cmd.CombinedOutput()
+	summary := lastFuzzLine(string(out))
+	var fs []h.Failure
+	files, _ := filepath.Glob(filepath.Join(failDir, "*.json"))
+	for _, f := range files {
+		b, _ := os.ReadFile(f)
+		var sv h.Saved
+		if json.Unmarshal(b, &sv) == nil {
+			fs = append(fs, h.Failure{Property: id, Check: sv.Check, Message: "native fuzz " + target + ": " + sv.Message, Case: sv.Case})
+		}
+	}
+	// crashers of the worker process itself (no chance to write a fail file): Go saves them under testdata/fuzz
+	crashDir := filepath.Join(root, "props", strings.ToLower(id), "testdata", "fuzz", target)
+	crashers, _ := filepath.Glob(filepath.Join(crashDir, "*"))
+	for _, c := range crashers {
+		b, _ := os.ReadFile(c)
+		if data, ok := parseFuzzBytes(string(b)); ok && len(fs) == 0 {
+			cj, _ := json.Marshal(map[string]any{"kind": "text", "text": data})
+			fs = append(fs, h.Failure{Property: id, Check: strings.ToLower(id), Message: "native fuzz " + target + ": the fuzz worker crashed or failed on this input: " + oneLine(tail(string(out), 6), 300), Case: cj})
+		}
+		_ = os.Remove(c) // the replay file written by the driver is the reproducible unit
+	}
+	if err != nil && len(fs) == 0 {
+		// neither a fail file nor a crasher: the campaign itself did not run properly (never a verdict)
+		summary += " (inconclusive: fuzz run ended with " + err.Error() + ": " + oneLine(tail(string(out), 4), 300) + ")"
+	}
+	return fs, summary
+}
+
+func lastFuzzLine(out string) string {
+	last := ""
+	for _, l := range strings.Split(out, "\n") {
+		if strings.HasPrefix(l, "fuzz: elapsed") {
+			last = l
+		}
+	}
+	return last
+}
+
+// parseFuzzBytes extracts the []byte literal of a Go fuzz corpus file (v1 encoding).
+func parseFuzzBytes(s string) ([]byte, bool) {
+	lines := strings.Split(s, "\n")
+	if len(lines) < 2 || !strings.HasPrefix(lines[0], "go test fuzz v1") {
+		return nil, false
+	}
+	l := strings.TrimSpace(lines[1])
+	if !strings.HasPrefix(l, "[]byte(") || !strings.HasSuffix(l, ")") {
+		return nil, false
+	}
+	q := l[len("[]byte(") : len(l)-1]
+	u, err := strconv.Unquote(q)
+	if err != nil {
+		return nil, false
+	}
+	return []byte(u), true
 }
